@@ -79,8 +79,8 @@ def subscription_idempotent(chk: Check) -> None:
     removing it must remove it altogether."""
     prog = chk.prog
     eh = prog.cls('event_helper.EventHelper')
-    init = eh.methods['__init__']
-    add = prog.view(eh.methods['add_listener'])
+    init = eh.vmethods['__init__']
+    add = prog.view(eh.vmethods['add_listener'])
     inits = [n for n in ast.walk(init.node) if isinstance(n, (ast.Assign, ast.AnnAssign)) and norm(n.targets[0] if isinstance(n, ast.Assign) else n.target) == 'self._listeners']
     is_set = bool(inits) and all(isinstance(n.value, ast.Call) and norm(n.value.func) in ('set', 'weakref.WeakSet', 'WeakSet') or isinstance(n.value, ast.Set) for n in inits)
     ff = chk.ctx.facts.analyse(add)
@@ -192,7 +192,7 @@ def future_resolution(chk: Check) -> None:
     allowed = {'on_finish', 'on_except', 'on_kill'}
     n = 0
     for c in [proc] + prog.subclasses(proc):
-        for f in list(c.methods.values()):
+        for f in list(c.vmethods.values()):
             for g in [f] + list(f.nested.values()):
                 for s in writer_sites(chk.ctx, g, ['self._future']):
                     n += 1
@@ -311,7 +311,7 @@ def accessors(chk: Check) -> None:
     for cls_q, fields in (('process_states.Finished', {'result': 'result', 'successful': 'successful'}),
                           ('process_states.Killed', {'msg': 'msg'}), ('process_states.Excepted', {'exception': 'exception', 'traceback': 'trace_back'})):
         c = prog.cls(cls_q)
-        cap = {a: p for a, p, k in captured_fields(prog.view(c.methods['__init__']))}
+        cap = {a: p for a, p, k in captured_fields(prog.view(c.vmethods['__init__']))}
         chk.ob('DISP-accessor', cls_q, all(cap.get(a) == p for a, p in fields.items()), f'{c.name} stores {sorted(fields)} from its constructor arguments ({cap})',
                kind='state-fields')
 
@@ -389,7 +389,8 @@ def close_once(chk: Check) -> None:
         ok &= ('T', 'self._state.is_terminal()') in atoms_true
         # "iff": no further condition may be attached (e.g. skipping it for a failed transition would leave the process open)
         conj = t.ast.test.values if isinstance(t.ast.test, ast.BoolOp) and isinstance(t.ast.test.op, ast.And) else [t.ast.test]
-        ok &= all(norm(ff.canon.expr(c)) in ('self._state is not None', 'self._state', 'self._state.is_terminal()') for c in conj)
+        allowed = {('notnone', 'self._state'), ('T', 'self._state'), ('T', 'self._state.is_terminal()'), ('notnone', 'self._state.is_terminal()')}
+        ok &= all(ff.cond_atoms(c, True) and ff.cond_atoms(c, True) <= allowed for c in conj)
     chk.ob('DOM-on-terminated', tt, ok, 'after every successful state entry (including the StateEntryFailed re-entry) on_terminated is called iff the '
            'state entered is terminal', kind='called-iff-terminal')
     ot = prog.func('processes.Process.on_terminated')
@@ -487,7 +488,7 @@ def inflight_step_released(chk: Check, rule: str = 'FUT-wait-release') -> None:
     cx = Contexts(chk.ctx)
     n = 0
     for c in prog.subclasses(base):
-        ex = c.methods.get('execute')
+        ex = c.vmethods.get('execute')
         if ex is None or not ex.is_async:
             continue
         ff = chk.ctx.facts.analyse(ex)
@@ -496,7 +497,7 @@ def inflight_step_released(chk: Check, rule: str = 'FUT-wait-release') -> None:
         for key in keys:
             n += 1
             # functions run when the state is left: every exit() along the MRO and what they call synchronously
-            seen, stack = {}, [k.methods['exit'] for k in c.mro_classes() if 'exit' in k.methods]
+            seen, stack = {}, [k.vmethods['exit'] for k in c.mro_classes() if 'exit' in k.methods]
             while stack:
                 g = stack.pop()
                 if id(g.node) in seen:
